@@ -69,40 +69,73 @@ type opOutcome struct {
 	imported []sim.Content
 }
 
-// runOp calls one internal operation of the public API with a short context.
+// runOp calls one internal operation of the public API. An operation that has not entered its
+// section after opTimeout is cancelled (it is being kept out); one that has entered is given time
+// to finish, so that a slow machine cannot turn "proceeds" into "refused".
 func (w *world) runOp(op string, haltID int64) (out opOutcome) {
-	ctx, cancel := context.WithTimeout(context.Background(), opTimeout)
+	ctx, cancel := context.WithCancel(context.Background())
 	defer cancel()
 	core.Beat("real:op:" + op)
 	defer core.Beat("harness")
-	out.panic = core.Try(func() {
-		switch op {
-		case "Recover":
-			out.err = w.db.Recover(ctx)
-		case "StoreRecover":
-			out.err = w.node.Store.Recover(ctx)
-		case "Checkpoint":
-			out.err = w.db.Checkpoint(ctx)
-		case "Import":
-			img, model := w.importImage()
-			out.err = w.db.Import(ctx, bytes.NewReader(img))
-			if out.err == nil {
-				out.imported = model
+	h0 := atomic.LoadInt64(&w.hookCalls)
+	done := make(chan struct{})
+	go func() {
+		defer close(done)
+		out.panic = core.Try(func() { w.runOp1(ctx, op, haltID, &out) })
+	}()
+	select {
+	case <-done:
+		return out
+	case <-time.After(opTimeout):
+	}
+	entered := atomic.LoadInt64(&w.hookCalls) != h0
+	if m, err := lockTable(w.node.Store, dbName); err == nil && !entered && len(w.clientsHolding()) == 0 {
+		// the whole write set is exclusive and none of it belongs to a connection: the operation is inside
+		entered = true
+		for _, i := range w.conflict {
+			if m[i] != 'X' {
+				entered = false
 			}
-		case "Halt":
-			out.halt, out.err = w.db.AcquireHaltLock(ctx, haltID)
-		case "AcquireWriteLock":
-			out.gs, out.err = w.db.AcquireWriteLock(ctx, nil)
-		case "TryAcquireWriteLock":
-			out.gs = w.db.TryAcquireWriteLock()
-			if out.gs == nil {
-				out.err = errors.New("TryAcquireWriteLock returned nil")
-			}
-		default:
-			core.Infra("unknown op %s", op)
 		}
-	})
+	}
+	if !entered {
+		cancel()
+	}
+	select {
+	case <-done:
+	case <-time.After(30 * time.Second):
+		w.rep.Violate("C11.no-hang", "hang/op/"+op, map[string]any{"op": op, "entered": entered}, nil)
+		w.rep.Finish()
+	}
 	return out
+}
+
+func (w *world) runOp1(ctx context.Context, op string, haltID int64, out *opOutcome) {
+	switch op {
+	case "Recover":
+		out.err = w.db.Recover(ctx)
+	case "StoreRecover":
+		out.err = w.node.Store.Recover(ctx)
+	case "Checkpoint":
+		out.err = w.db.Checkpoint(ctx)
+	case "Import":
+		img, model := w.importImage()
+		out.err = w.db.Import(ctx, bytes.NewReader(img))
+		if out.err == nil {
+			out.imported = model
+		}
+	case "Halt":
+		out.halt, out.err = w.db.AcquireHaltLock(ctx, haltID)
+	case "AcquireWriteLock":
+		out.gs, out.err = w.db.AcquireWriteLock(ctx, nil)
+	case "TryAcquireWriteLock":
+		out.gs = w.db.TryAcquireWriteLock()
+		if out.gs == nil {
+			out.err = errors.New("TryAcquireWriteLock returned nil")
+		}
+	default:
+		core.Infra("unknown op %s", op)
+	}
 }
 
 // heldState follows the internal writer's own steps from n to the state in which it holds its section.
@@ -290,7 +323,7 @@ func operationsInStates(rep *core.Report, r *replayer, count int, rnd *rand.Rand
 		entries[e] = c
 	}
 	w.evMu.Unlock()
-	rep.Extra["operations_"+w.mode] = map[string]any{"outcomes": stats, "internal_page_writes_by_entry_point": entries}
+	rep.Extra["operations_"+g.cfg] = map[string]any{"outcomes": stats, "internal_page_writes_by_entry_point": entries}
 }
 
 // snapshotSequences: WriteSnapshotTo / Export on an idle database; the recorded lock transitions
@@ -320,13 +353,19 @@ func snapshotSequences(rep *core.Report, w *world, pl progLine) {
 		}
 		prog := pl
 		if which == "Export" {
-			// Export keeps CKPT and RECOVER until the deferred Unlock
+			// Export keeps CKPT and RECOVER until the deferred Unlock, and (since the repair of the
+			// C10 finding) keeps the temporary WRITE lock until READ4 is held
 			prog.Snap = nil
 			for _, s := range pl.Snap {
-				if s.Op == "U" && (s.L == "CKPT" || s.L == "RECOVER") {
+				if s.Op == "U" && (s.L == "CKPT" || s.L == "RECOVER" || s.L == "WRITE") {
 					continue
 				}
 				prog.Snap = append(prog.Snap, s)
+				if s.Op == "R" && s.L == "READ4" && w.mode == "wal" {
+					u := s
+					u.Op, u.L = "U", "WRITE"
+					prog.Snap = append(prog.Snap, u)
+				}
 			}
 		}
 		rep.Eval(1)
@@ -455,10 +494,6 @@ func replicaScenario(rep *core.Report, mode string, layout sim.Layout) {
 	if err != nil {
 		core.Infra("start primary: %v", err)
 	}
-	rn, err := cl.Start("r", sim.ClusterNodeOpts{Candidate: false})
-	if err != nil {
-		core.Infra("start replica: %v", err)
-	}
 	if err := cl.Elect("p", 10*time.Second); err != nil {
 		core.Infra("elect: %v", err)
 	}
@@ -466,6 +501,12 @@ func replicaScenario(rep *core.Report, mode string, layout sim.Layout) {
 	wp.attach(p.Node, nil, nil)
 	wp.createDatabase()
 	defer func() { registryMu.Lock(); delete(registry, wp.db); registryMu.Unlock() }()
+	// the replica joins afterwards: the snapshot the primary sends it takes SHARED for a moment and would
+	// make the (non-retrying) pager simulator's EXCLUSIVE request busy
+	rn, err := cl.Start("r", sim.ClusterNodeOpts{Candidate: false})
+	if err != nil {
+		core.Infra("start replica: %v", err)
+	}
 	if err := cl.WaitPos("r", dbName, wp.db.Pos(), 10*time.Second); err != nil {
 		core.Infra("replica did not catch up: %v", err)
 	}
